@@ -102,7 +102,7 @@ def run(ctx: Ctx) -> None:
                                **{k: f[k] for k in ("probe", "py_datum", "dt") if k in f}})
     ctx.extra["programs_by_kind"] = by_kind
     ctx.extra["unsupported"] = unsupported
-    if not by_kind or min(by_kind.values()) == 0 or len(by_kind) < 12:
+    if not by_kind or min(by_kind.values()) == 0 or len(by_kind) < 13:
         raise MachineryError(f"a model kind was never exercised: {by_kind}")
     converters(ctx)
     ctx.exhaustive = thorough
